@@ -191,7 +191,7 @@ func (p *c17bPeer) handle(c *c17bConn) {
 			if c.bad {
 				asn += 7
 			}
-			if _, err := c.conn.Write(append(helper.openBytes(asn), keepaliveBytes()...)); err != nil {
+			if _, err := c.conn.Write(append(helper.openBytes(asn, p.fbasn), keepaliveBytes()...)); err != nil {
 				return
 			}
 			p.mu.Lock()
